@@ -550,6 +550,11 @@ func replayReproduces(rp *Replay) (bool, *Violation) {
 		return raceReproduces(rp)
 	}
 	res, died, stderr := runPlansFresh(rp.Plans, 4)
+	if !died && !planViolates(res, rp.Expected) {
+		// sources of nondeterminism outside the seams (e.g. scheduling-dependent caches in third-party
+		// code) behave most regularly on one processor: one more attempt there
+		res, died, stderr = runPlansFresh(rp.Plans, 1)
+	}
 	if died {
 		if rp.Expected != nil && rp.Expected.Oracle == "process-died" {
 			v := *rp.Expected
@@ -595,4 +600,16 @@ func replayMain(args []string) int {
 	}
 	fmt.Printf("[dst] replay %s: the recorded violation does not occur on this tree\n", args[0])
 	return 0
+}
+
+func planViolates(res []*PlanResult, exp *Violation) bool {
+	if len(res) == 0 {
+		return false
+	}
+	for _, v := range res[len(res)-1].Violations {
+		if exp == nil || (v.Property == exp.Property && v.Oracle == exp.Oracle) {
+			return true
+		}
+	}
+	return false
 }
